@@ -6,13 +6,14 @@ Core Lean only: this file is linked into the driver executable.
 Three implementations of one interface (`Impl`) run under one generic `step`:
 * `specImpl` — the contract: ordered map, batch = op log applied at `Write`, iterator = range
   `[prefix, UpperBound(prefix))` with positions unpositioned / before / at i / after.
-* `memImpl c` — a transcription of `db/memory` (current tree): batch = ordered `writes` list +
+* `memImpl c` — a transcription of `db/memory` BEFORE 36de10a: batch = ordered `writes` list +
   `writeMap`, `DeleteRange` on a batch materialised at call time through an iterator over a flushed
-  copy, iterator = key list + `curInd` integer arithmetic + `positioned`.
+  copy (finding F5, repaired); iterator = key list + `curInd` integer arithmetic + `positioned` (current).
   `c.cbUnlocked` says whether `Get` runs its callback after releasing the store lock (it does since
-  94ab97c; before, a callback that writes to the store deadlocked); the harness probes it. The variant
-  of the batch with `DeleteRange` recorded as a range is `mem2Impl` in ModelRange.lean; `db.BufferBatch`
-  and `CalculatePrefixSize` are in ModelBuf.lean.
+  94ab97c; before, a callback that writes to the store deadlocked); the harness probes both. The batch
+  as it is NOW (`DeleteRange` recorded as a range) is `mem2Impl` in ModelRange.lean, which shares store,
+  snapshot and iterator with `memImpl`; `db.BufferBatch` and `CalculatePrefixSize` are in ModelBuf.lean,
+  stacks of `db.BufferBatch` / `db.SyncBatch` in ModelStack.lean.
 * `pebImpl` — a transcription of the Pebble wrappers `db/pebblev2/{db,batch,iterator,snapshot}.go`
   (`db/pebble/*` is the same text) over an abstract engine (`E*`: ordered map, batch = op log with an
   `indexed` flag, iterator with lower/upper bound and raw `First/Next/Prev/SeekGE`, errors
